@@ -48,7 +48,40 @@ def fn_expr(r, dthr=0):
     if f == "kinematic_singularity":
         P = r["robot"]["params"]
         return f"run_singular {C.qlit(THR)} {C.qlit(Fraction(dthr))} {C.qlist([Fraction(s) for s in P['sg']])} {ql(P['off'])} {C.qlist(a)}"
+    if f == "sort_by_closeness":
+        return f"run_sort {cons_lit(r['robot']['cons'])} false {C.qlist(a)} {qll(r['sols'])}"
     raise KeyError(f)
+
+
+def py_centers(c):
+    out = []
+    for h1, h2 in zip(c["from"], c["to"]):
+        a, b = C.f64(h1), C.f64(h2)
+        if a == b:
+            out.append(a)
+        elif a < b:
+            out.append((a + b) / 2)
+        else:
+            while b < a:
+                b += 2 * math.pi
+            out.append((a + b) / 2)
+    return out
+
+
+def py_cost(cons, previous, a):
+    """the documented sorting cost (f64), used only to decide whether two orders are both sorted"""
+    d = lambda x, y: sum(abs(p - q) for p, q in zip(x, y))
+    w = C.f64(cons["w"]) if cons else 0.0
+    if w == 0.0:
+        return d(a, previous)
+    cen = py_centers(cons)
+    prev_d = 0.0 if w == 1.0 else d(a, previous)
+    return prev_d * (1 - w) + d(a, cen) * w
+
+
+def sorted_within(cons, previous, sols, tol=1e-9):
+    cs = [py_cost(cons, previous, s) for s in sols]
+    return all(cs[i] <= cs[i + 1] + tol for i in range(len(cs) - 1))
 
 
 def decode_sols(zs):
@@ -118,6 +151,13 @@ def pi_tie(model, impl, r):
 
 def compare_fn(r, zs):
     f = r["fn"]
+    if f == "sort_by_closeness":
+        model = decode_sols(zs)
+        impl = [[C.f64(h) for h in s_] for s_ in r["out"]]
+        if sols_equal(model, impl):
+            return True
+        # a different order is the same answer only when both are sorted (equal costs within rounding)
+        return same_multiset(model, impl) and sorted_within(r["robot"]["cons"], [C.f64(h) for h in r["args"]], impl)
     if f in ("normalize_near", "calculate_distance"):
         return C.close(C.unq(zs, 0), C.f64(r["out"]), 1e-9)
     return (zs[0] == 1) == bool(r["out"])
@@ -190,14 +230,16 @@ def run(tier, seed, n=None, want=None):
                 # rounding picks one (and the sorting cost changes with it)
                 undec += 1
                 dist["undecided_half_turn_tie"] += 1
-            elif same_multiset(model, impl) and r["entry"] in (1, 3):
-                # same answers, different order: only acceptable for (near-)equal sorting costs
+            elif same_multiset(model, impl) and r["entry"] in (1, 3) and sorted_within(
+                    r["robot"]["cons"], py_centers(r["robot"]["cons"]) if (r["sentinel"] and r["robot"]["cons"]) else ([0.0] * 6 if r["sentinel"] else [C.f64(h) for h in r["prev"]]), impl):
+                # same answers in a different order, and the implementation's order is itself non-decreasing in the documented
+                # cost (within 1e-9): equal costs, rounding decides
                 undec += 1
                 dist["undecided_sort_tie"] += 1
             else:
                 dis.append({"why": f"entry {r['entry']}: model returns {len(model)} solutions {[[round(float(x), 9) for x in m] for m in model]}, "
                                    f"implementation {len(impl)} {[[round(x, 9) for x in s] for s in impl]}", "record": r})
-    samples = [{"fn": r["fn"], "args": [C.f64(h) for h in r["args"]], "out": r["out"] if isinstance(r["out"], bool) else C.f64(r["out"])} for r in fns[:2]]
+    samples = [{"fn": r["fn"], "args": [C.f64(h) for h in r["args"]], "out": r["out"] if isinstance(r["out"], (bool, list)) else C.f64(r["out"])} for r in fns[:2]]
     samples += [{"entry": r["entry"], "kind": r["kind"], "dof": r["robot"]["params"]["dof"], "prev": [C.f64(h) for h in r["prev"]],
                  "sentinel": r["sentinel"], "n_kernel": [len(k) for k in r.get("kernel", [])] or len(r.get("kernel5", [])),
                  "impl_out": [[C.f64(h) for h in s] for s in r["out"]][:2]} for r in ents[:3]]
